@@ -2096,7 +2096,12 @@ def run(ctx):
     run_docx(ctx)
     run_doc(ctx)
     run_odt(ctx)
-    odf_inventory(ctx)
+    try:
+        odf_inventory(ctx)
+    except Exception as e:  # noqa  -- the code no longer has the shape the inventory reads: an obligation, and the search goes on
+        import traceback
+        ctx.obligation("inventory:ODF extractors have the shape the model was written for", False,
+                       "odf_inventory could not read the code: " + traceback.format_exc()[-600:])
     run_odf(ctx)
     run_order(ctx)
     run_end_to_end(ctx)
